@@ -43,6 +43,9 @@ DEFAULT_CFG = {
     # exclusions of known findings (DESIGN 1.5); each redirected draw is counted in meta
     'excl': (),
     'wbound': 3,
+    'init_all': False,      # C02: every local initialised at function top
+    'directives': 0,        # percent of loops carrying a set_loop_options directive (C03)
+    'def_extras': 25,       # percent of nested defs with a default-value expression / decorator
 }
 
 
@@ -471,17 +474,38 @@ class Gen(object):
     sp = '  ' * ind
     self.note('if')
     lines.append('%sif %s:' % (sp, self.cond(env)))
+    branch_assigned = []
+    self.assign_stack.append(set())
     outs = [self.block(self.sub(env), ind + 1, lines)]
+    branch_assigned.append(self.assign_stack.pop())
     nel = self.integer(0, 2) if self.chance(25) else 0
     for _ in range(nel):
       self.note('elif')
       lines.append('%selif %s:' % (sp, self.cond(env)))
+      self.assign_stack.append(set())
       outs.append(self.block(self.sub(env), ind + 1, lines))
+      branch_assigned.append(self.assign_stack.pop())
     if self.chance(55):
+      mark = len(lines)
       lines.append('%selse:' % sp)
-      outs.append(self.block(self.sub(env), ind + 1, lines))
+      self.assign_stack.append(set())
+      o_else = self.block(self.sub(env), ind + 1, lines)
+      a_else = self.assign_stack.pop()
+      common = set.intersection(a_else, *branch_assigned)
+      if common and (env.depth >= 1 or self.meta.get('return')) and self.excl('no_all_branch_rebind_in_nested_block'):
+        # (statements after an early return are nested under the generated `if not do_return:`)
+        # F29: a variable assigned on every path of a nested conditional may be made local to the
+        # enclosing generated body function without being initialised there; cut the else clause
+        self.note('excluded:no_all_branch_rebind_in_nested_block')
+        del lines[mark:]
+        outs.append(env)
+      else:
+        outs.append(o_else)
+        branch_assigned.append(a_else)
     else:
       outs.append(env)
+    for a_ in branch_assigned:
+      self.mark(*a_)
     if all(o is None for o in outs):
       return None
     j = _join(outs, env)
@@ -513,6 +537,7 @@ class Gen(object):
       lines.append('%swhile %s < %d and %s:' % (sp, w, bound, self.cond(env)))
     else:
       lines.append('%swhile %s:' % (sp, self.cond(env)))
+    self.directive(lines, sp)
     lines.append('%s  %s += 1' % (sp, w))
     if form == 'guard':
       self.note('break')
@@ -531,6 +556,13 @@ class Gen(object):
       if n not in e.bound:
         e.maybe.add(n)
     return e
+
+  def directive(self, lines, sp):
+    if self.cfg['directives'] and self.chance(self.cfg['directives']):
+      self.note('loop_directive')
+      k = 1000 + self.newk()
+      form = self.choice(['maximum_iterations=%d', 'parallel_iterations=%d', 'maximum_iterations=%d, swap_memory=True'])
+      lines.append('%s  malt.experimental.set_loop_options(%s)' % (sp, form % k))
 
   def for_stmt(self, env, ind, lines):
     sp = '  ' * ind
@@ -584,6 +616,7 @@ class Gen(object):
       it = itn
       pre = itn
     lines.append('%sfor %s in %s:' % (sp, tg, it))
+    self.directive(lines, sp)
     body_env = self.sub(env, loop=env.loop + 1, for_targets=env.for_targets + tuple(targets))
     for n in targets:
       body_env.bound[n] = 'int'
@@ -726,7 +759,15 @@ class Gen(object):
     captured = dict((n, kk) for n, kk in env.bound.items() if kk == 'int')
     inner.bound = dict(captured)
     inner.bound['q'] = 'int'
-    lines.append('%sdef %s(q):' % (sp, f))
+    extras = cfg['def_extras'] and self.chance(cfg['def_extras'])
+    if extras:
+      self.note('def_with_default_and_decorator')
+      if self.chance(50):
+        lines.append('%s@deco(%s)' % (sp, self.expr(env, 1)))
+      lines.append('%sdef %s(q, r=%s):' % (sp, f, self.expr(env, 1)))
+      inner.bound['r'] = 'int'
+    else:
+      lines.append('%sdef %s(q):' % (sp, f))
     body = []
     nl = []
     if cfg['nonlocals'] and not cfg['pure'] and self.chance(40):
@@ -746,6 +787,10 @@ class Gen(object):
     cfg['raise'] = False   # exceptions raised by a callee are outside the class
     self.budget = min(self.budget, 6)
     start = self.budget
+    if cfg['init_all']:
+      for i_, n_ in enumerate(cfg['names']):
+        body.append('%s  %s = %d' % (sp, n_, i_))
+        inner.bound[n_] = 'int'
     try:
       out = self.block(inner, ind + 1, body)
       if out is not None:
@@ -775,7 +820,7 @@ class Gen(object):
 def _module(draw, cfg):
   g = Gen(draw, cfg)
   cfg = g.cfg
-  lines = ['from vf.rt import *', 'G0 = 0', 'G1 = 5', '']
+  lines = ['import malt', 'from vf.rt import *', 'G0 = 0', 'G1 = 5', '']
   # helpers
   nh = draw(st.integers(0, cfg['helpers'])) if cfg['helpers'] else 0
   saved = dict((k, cfg[k]) for k in ('defs', 'composites', 'globals', 'nonlocals', 'unbound_reads', 'lambdas'))
@@ -836,6 +881,10 @@ def _module(draw, cfg):
       decl.append('      return q')
       lines.extend(decl[-2:])
       env.bound[f] = 'fn'
+  if cfg['init_all']:
+    for i_, n_ in enumerate(cfg['names']):
+      lines.append('    %s = %d' % (n_, i_))
+      env.bound[n_] = 'int'
   g.meta_decl = len(decl)
   body = g.function('prog', ['a', 'b', 'o', 'd', 'l'], 1, env)
   lines.extend(body)
